@@ -311,7 +311,74 @@ def split_addrange_algebra(ctx, rule):
 
 
 def run(ctx):
+    ctx.rule('R09.8', 'entries re-sorted by key alone keep their input order at equal keys: the sorted list is appended to entry by entry (stable sort), or the sort key breaks ties explicitly', floor=2)
+    ctx.rule('R09.9', 'the public merge producers never conclude "this side is unchanged" from Python equality of the documents (True == 1 == 1.0)', floor=3)
+    ctx.rule('R09.10', 'the mergers only add decisions: the decision list is replaced/filtered nowhere in merging/generic.py (strategies replace only conflicted ones, R05.2)', floor=5)
     ctx.rule('R09.7', 'decision building and application never test a diff key / path element by truthiness', floor=6)
     _run_base(ctx)
     from ..keys import key_truthiness
     key_truthiness(ctx, 'R09.7', ['nbdime.merging.'], 'a decision at index 0 / line 0 is pushed to the wrong path or applied at the wrong level')
+
+    # ---------------------------------------------------------------- R09.8
+    from ..sorts import key_sort_sites, key_function_kind, single_pass_construction
+    repo = ctx.repo
+    sites = key_sort_sites(repo)
+    if len(sites) < 2:
+        raise AnalysisError('key sorts of combine_patches / flatten_list_of_string_diff not found')
+    for fid, fn, call, lst, keyfn in sites:
+        kind = key_function_kind(keyfn)
+        if kind == 'tie-broken':
+            ctx.inst('R09.8', fid, repo.norm(call), True, 'ties are broken explicitly by the sort key', call)
+            continue
+        ok, why = single_pass_construction(fn, lst)
+        ctx.inst('R09.8', fid, repo.norm(call), ok and kind == 'key-only',
+                 'stable sort of a list that is %s: an addrange stays in front of the patch/removerange on the same key' % why if ok and kind == 'key-only' else
+                 ('%s; patch_list needs an addrange to come before a patch/removerange at the same key, which only input order guarantees here' % why
+                  if kind == 'key-only' else 'sort key is neither the entry key nor a (key, tie-break) tuple'), call)
+    # ---------------------------------------------------------------- R09.9
+    DOCS = {'base', 'local', 'remote'}
+    for fid in (mf.MNB + ':decide_notebook_merge', mf.MNB + ':merge_notebooks', mf.GEN + ':decide_merge', mf.GEN + ':decide_merge_with_diff', mf.GEN + ':merge'):
+        if fid not in repo.functions:
+            continue
+        fn = repo.functions[fid]
+        bad = None
+        for n in walk_no_nested(fn):
+            if isinstance(n, ast.Compare) and len(n.ops) == 1 and isinstance(n.ops[0], (ast.Eq, ast.NotEq)):
+                l, r = dotted(n.left), dotted(n.comparators[0])
+                if l in DOCS and r in DOCS and not isinstance(repo.stmt_of(n), ast.Assert):
+                    bad = n
+        ctx.inst('R09.9', fid, repo.norm(bad) if bad is not None else 'no ==/!= between base, local and remote', bad is None,
+                 'every side is diffed; "unchanged" is concluded by the differ (type-strict)' if bad is None else
+                 'a side whose only changes swap bool/int/float values of equal magnitude compares equal to base: its diff is skipped and its '
+                 'changes are missing from the decisions (choosing that side no longer reproduces it)', bad if bad is not None else fn)
+    # ---------------------------------------------------------------- R09.10
+    n10 = 0
+    for fid, fn in sorted(repo.functions.items()):
+        if not fid.startswith(mf.GEN + ':') or '__unused__' in fid:
+            continue
+        builders = {n.id for n in ast.walk(fn) if isinstance(n, ast.Name) and 'decisions' in n.id}
+        if not builders:
+            continue
+        n10 += 1
+        bad = None
+        for n in walk_no_nested(fn):
+            tgts = []
+            if isinstance(n, ast.Assign):
+                tgts = n.targets
+            elif isinstance(n, ast.AugAssign):
+                tgts = [n.target]
+            elif isinstance(n, ast.Delete):
+                tgts = n.targets
+            for t in tgts:
+                base = t.value if isinstance(t, ast.Subscript) else t
+                if isinstance(base, ast.Attribute) and base.attr == 'decisions' and isinstance(base.value, ast.Name) and 'decisions' in base.value.id:
+                    bad = n
+            if isinstance(n, ast.Call) and isinstance(n.func, ast.Attribute) and n.func.attr in ('remove', 'pop', 'clear', 'sort', 'reverse') and \
+                    isinstance(n.func.value, ast.Attribute) and n.func.value.attr == 'decisions':
+                bad = n
+        ctx.inst('R09.10', fid, repo.norm(bad)[:120] if bad is not None else 'decision list only extended', bad is None,
+                 'decisions are only added (add_decision / extend)' if bad is None else
+                 'the merger drops or replaces decisions it already made: two equal one-sided decisions (the same line inserted twice) are both needed to '
+                 'reproduce that side', bad if bad is not None else fn)
+    if n10 < 5:
+        raise AnalysisError('fewer merger functions than expected handle a decision builder')
